@@ -56,6 +56,32 @@ def main():
         rep.mc_violation("C16_extend", r)
     rng = random.Random(core.seed() * 7919 + 16)
     cases = gen_cases(rng, 700 if quick else 15000)
+    # ---- dense time: evaluate(w1) vs evaluate(w2), w2 extends w1; values at t with t + h < end of w1 agree
+    import c04 as _c04
+    dcases = []
+    DOPS = [o for o in _c04.DENSE_OPS if o not in UNB_FUT]
+    for i in range((700 if quick else 8000) // 2):
+        S = rng.choice([1, 2])
+        g = Gen(rng, vars_=rng.choice([("x",), ("x", "y")]), S=S, ops=DOPS, ivs=_c04.IVS, bool_atoms=True)
+        phi = g.formula(rng.choice([1, 2, 2, 3]))
+        if not vars_of(phi):
+            continue
+        vs = vars_of(phi)
+        end1 = rng.choice([3, 5, 8])
+        ext = rng.choice([1, 2, 4, 6])
+        w1 = {v: gen_signal(rng, rng.choice([2, 3, 4, 5]), t0=0, S=S, end=end1) for v in vs}
+        w2 = {}
+        for v in vs:
+            extra = gen_signal(rng, rng.choice([1, 2, 3]), t0=end1 + 1, S=S, end=end1 + ext, lo=-9, hi=9) if ext > 1 else [[end1 + 1, rng.choice([-9, 9]) * S]]
+            w2[v] = w1[v] + extra
+        h = horizon(phi)
+        objs = [ct_obj(phi, S, vs), ct_obj(phi, S, vs)]
+        evs = [ev_parse(1), ev_parse(2), ev_ct("evaluate", w1, 1), ev_ct("evaluate", w2, 2)]
+        dcases.append(case(objs, evs, [{"rel": "settled_ct", "x": 1, "y": 2, "h": h}]))
+    dtr = runner.run_cases(dcases)
+    dvs, dgen, ddist = core.validate("C16_dense", dtr, module="TraceCt")
+    rep.add_traces(dtr, dvs, dgen, ddist, nontrivial_key=lambda c: c["objs"][0]["text"] + str(c["events"][-1]["w"]))
+    rep.extra["dense_cases"] = len(dcases)
     traces = runner.run_cases(cases)
     vs_, gen, dist = core.validate("C16", traces)
     rep.add_traces(traces, vs_, gen, dist, nontrivial_key=lambda c: c["objs"][0]["text"] + str(c["events"][-1]["w"]))
